@@ -23,7 +23,7 @@ ASSUMPTIONS = [
 ]
 
 CLASSES = ["hexahedron", "tetra", "hexahedron20", "quad-planestrain", "quad8-planestrain", "triangle-planestrain", "mixed-hexahedron", "neo-hooke-at-rest",
-           "quad-axisymmetric", "quad8-axisymmetric", "hexahedron-orthotropic", "hexahedron-condensed"]
+           "quad-axisymmetric", "quad8-axisymmetric", "hexahedron-orthotropic", "hexahedron-condensed", "quad-planestress-law2d", "quad8-planestrain-law2d"]
 
 
 def fl(lo, hi, nd=3):
@@ -43,7 +43,7 @@ def strategy(cls, tier):
 
 
 def model(fem, cls, case, transform=None):
-    dim = 2 if ("planestrain" in cls or "axisymmetric" in cls) else 3
+    dim = 2 if ("planestrain" in cls or "planestress" in cls or "axisymmetric" in cls) else 3
     nn = [max(3, k) for k in case["n"]] if cls == "mixed-hexahedron" else case["n"]  # ARPACK needs a few cells when the mass matrix is singular (dual fields)
     a0 = (0.0, (0.0, 0.3, 1.1)[case["seed"] % 3]) if "axisymmetric" in cls else (0.0,) * dim  # ring at a drawn distance from the axis
     mesh = (fem.Rectangle if dim == 2 else fem.Cube)(a=tuple(a0), b=tuple(np.array(a0) + np.array(case["size"][:dim])), n=tuple(nn[:dim]))
@@ -75,7 +75,7 @@ def model(fem, cls, case, transform=None):
             mesh = mesh.translate(move=transform["shift"][ax], axis=ax)
     R = {"hexahedron-condensed": fem.RegionHexahedron, "hexahedron-orthotropic": fem.RegionHexahedron, "hexahedron": fem.RegionHexahedron, "tetra": fem.RegionTetra, "hexahedron20": fem.RegionQuadraticHexahedron, "quad-planestrain": fem.RegionQuad,
          "quad8-planestrain": fem.RegionQuadraticQuad, "triangle-planestrain": fem.RegionTriangle, "quad-axisymmetric": fem.RegionQuad, "quad8-axisymmetric": fem.RegionQuadraticQuad, "mixed-hexahedron": fem.RegionHexahedron,
-         "neo-hooke-at-rest": fem.RegionHexahedron}[cls]
+         "neo-hooke-at-rest": fem.RegionHexahedron, "quad-planestress-law2d": fem.RegionQuad, "quad8-planestrain-law2d": fem.RegionQuadraticQuad}[cls]
     if cls.startswith("tetra"):
         region = R(mesh, quadrature=fem.TetrahedronQuadrature(order=2))  # the 1-point default rule gives a singular mass matrix
     elif cls.startswith("triangle"):
@@ -89,6 +89,10 @@ def model(fem, cls, case, transform=None):
     elif "axisymmetric" in cls:
         fc = fem.FieldContainer([fem.FieldAxisymmetric(region, dim=2)])
         um = fem.LinearElastic(E=E, nu=nu)
+    elif cls.endswith("law2d"):
+        # the two-dimensional laws (2 x 2 tensors) on a plain two-component field
+        fc = fem.FieldContainer([fem.Field(region, dim=2)])
+        um = fem.LinearElasticPlaneStress(E=E, nu=nu) if "planestress" in cls else fem.constitution.LinearElasticPlaneStrain(E=E, nu=nu)
     elif dim == 2:
         fc = fem.FieldContainer([fem.FieldPlaneStrain(region, dim=2)])
         um = fem.LinearElastic(E=E, nu=nu)
@@ -179,7 +183,8 @@ def check(cls, case, rec):
     if case["seed"] % 3 == 0 and cls not in ("mixed-hexahedron", "neo-hooke-at-rest", "hexahedron-condensed"):
         # a second item of another material on the same field; the stiffness of the first or of the second item (or of
         # both) is scaled by its multiplier (e.g. a softer coating): K = sum m_i K_i, M = sum M_i
-        m1, m2 = [(None, 0.35), (1.75, None), (0.6, 2.5)][(case["seed"] // 3) % 3]
+        # (a multiplier of 0.0 switches the stiffness of an item off while its mass still counts)
+        m1, m2 = [(None, 0.35), (1.75, None), (0.6, 2.5), (None, 0.0)][(case["seed"] // 3) % 4]
         um2 = fem.LinearElastic(E=2.5 * case["E"], nu=min(0.45, case["nu"] + 0.1))
         body = fem.SolidBody(um, fc, density=rho, **({} if m1 is None else {"multiplier": m1}))
         body2 = fem.SolidBody(um2, fc, density=0.5 * rho, **({} if m2 is None else {"multiplier": m2}))
@@ -333,8 +338,8 @@ def rigid_check(cls, case, rec):
 
 FAMILIES = [
     Family("eigenpairs", CLASSES, check, strategy=strategy, n={"quick": 24, "thorough": 400}, chunk=8, weight=2),
-    Family("unconstrained", ["hexahedron", "tetra", "quad-planestrain", "triangle-planestrain", "hexahedron20", "hexahedron-orthotropic"], free_check, strategy=strategy, n={"quick": 10, "thorough": 150}, chunk=5),
-    Family("rigid-motion", ["hexahedron", "tetra", "quad-planestrain", "mixed-hexahedron"], rigid_check, strategy=strategy, n={"quick": 10, "thorough": 200}, chunk=5, weight=2),
+    Family("unconstrained", ["hexahedron", "tetra", "quad-planestrain", "triangle-planestrain", "hexahedron20", "hexahedron-orthotropic", "quad-planestress-law2d"], free_check, strategy=strategy, n={"quick": 10, "thorough": 150}, chunk=5),
+    Family("rigid-motion", ["hexahedron", "tetra", "quad-planestrain", "mixed-hexahedron", "quad8-planestrain-law2d"], rigid_check, strategy=strategy, n={"quick": 10, "thorough": 200}, chunk=5, weight=2),
 ]
 
 LEVEL_TEXT = (
